@@ -15,6 +15,13 @@ KNOWN_FILE = os.path.join(VERIF, "known_findings.txt")
 EVIDENCE_DIR = os.path.join(VERIF, "evidence")
 
 
+def _jsonable(o):
+    """evidence must always be writable: analysis objects a rule parked in ctx.extra are rendered as text"""
+    if isinstance(o, (set, frozenset)):
+        return sorted(map(str, o))
+    return str(o)[:300]
+
+
 @dataclass
 class Finding:
     prop: str
@@ -212,11 +219,11 @@ def finish(ctx: Ctx, *, t0: float, level: str = "other", explanation: str = "", 
     if write:
         os.makedirs(evidence_dir, exist_ok=True)
         with open(os.path.join(evidence_dir, f"{ctx.prop}.json"), "w", encoding="utf-8") as fh:
-            json.dump(ev, fh, indent=1, sort_keys=False)
+            json.dump(ev, fh, indent=1, sort_keys=False, default=_jsonable)
             fh.write("\n")
         if unlisted:
             with open(vpath, "w", encoding="utf-8") as fh:
-                json.dump([f.__dict__ for f in unlisted], fh, indent=1)
+                json.dump([f.__dict__ for f in unlisted], fh, indent=1, default=_jsonable)
         elif os.path.exists(vpath):
             os.remove(vpath)
     if not quiet:
